@@ -4,7 +4,8 @@ From CJ Require Import Common.Base C10.Model C10.ModelWorld C10.Run.
 (* what the driver does in one step *)
 Inductive mevent :=
 | MRecv (ks : list S.regkey) (sc : list fault)   (* parseRegMessage + ingestRegistration of every registration of one message *)
-| MSt (o : S.rop) (sc : list fault)              (* TrackRegistration / AddRegistration (another object) / MarkActive / clock / RemoveOldRegistrations *)
+| MSt (os : list S.rop) (sc : list fault)        (* TrackRegistration / AddRegistration (another object) of every registration of one message,
+                                                    MarkActive, the clock, RemoveOldRegistrations; the script applies to the first operation *)
 | MDet (e : devent)                              (* at the detector only *)
 | MCleanup (sc : list fault).                    (* RegistrationManager.Cleanup *)
 
@@ -18,7 +19,7 @@ Fixpoint fields_of (keys : list (S.regkey * reg)) (k : S.regkey) : reg :=
 Definition expand (s : S.st) (e : mevent) : list wevent :=
   match e with
   | MRecv ks sc => recv_events s ks sc
-  | MSt o sc => [WSt o sc]
+  | MSt os sc => match os with [] => [] | o :: r => WSt o sc :: map (fun o' => WSt o' []) r end
   | MDet d => [WDet d]
   | MCleanup sc => [WCleanup sc]
   end.
